@@ -11,11 +11,15 @@ B = dict(crate="ohkami", strength="bounded", tier="quick", timeout=900)
 READ_PAYLOAD = [H(f"c06_read_payload_contract_k{k:02d}", functions=["request::Request::read_payload"],
                   clauses=["result == exactly the `size` body bytes for any byte values (0x00 included)", "for every split between bytes that arrived with the head and bytes still to come, and every chunking of the latter",
                            "consumes exactly the missing bytes; does not wait when the body has already arrived; no panic"],
-                  bound="one harness per shape (size 1..=3, 0..=4 bytes already arrived incl. bytes of a following request, chunk size 1 or 4); contents symbolic", **B) for k in range(30)]
+                  bound="one harness per shape (size 1..=3, 0..=4 bytes already arrived incl. bytes of a following request, chunk size 1 or 4; the stream holds the missing bytes followed by 2 bytes of the next request); contents symbolic", **B) for k in range(30)]
 CLEAR = [H(f"c05_clear_contract_k{k:02d}", functions=["request::Request::clear", "request::headers::Headers::clear", "request::context::Context::clear", "header::map::IndexMap::clear", "ohkami_lib::map::TupleMap::clear"],
            clauses=["after clear(): no standard/custom header, payload, context entry, query of the earlier request is observable; buffer marked unused", "a header appended after clear() is the only header"],
            bound="one harness per shape (subset of {1 header, repeated header, custom header, payload, context entry}), contents symbolic; path/query are reset by plain assignment (read, not verified)",
            unwindset={"4find&IndexMap": 4, "drop_glue": 4, "v_standard_count": 4, "v_custom_count": 4, "TupleMap": 4, "memcmp": 6}, **B) for k in range(32)]
+CLEAR.append(H("c05_clear_full_buffer_contract", functions=["request::Request::clear"],
+               clauses=["the earlier request filled the whole 1 KiB buffer (no NUL byte): after clear() no header, payload or context entry is observable, buffer marked unused"],
+               bound="one concrete shape (buffer of 1024 non-zero bytes; one standard header, one custom header, payload, context entry with symbolic contents)",
+               unwindset={"4find&IndexMap": 4, "drop_glue": 4, "v_standard_count": 4, "v_custom_count": 4, "TupleMap": 4, "memcmp": 6}, **B))
 HARNESSES = [
     H("c02_method_from_bytes_contract", functions=["request::method::Method::from_bytes"], clauses=["Some(m) iff bytes == m.as_str() for one of the 7 methods"], bound="tokens of length <= 8", **B),
     H("c02_header_from_bytes_sound", functions=["request::headers::Header::from_bytes"], clauses=["Some(h) => name equals h.as_str() up to ASCII case"], bound="names of length <= 12 (symbolic)", **B),
